@@ -284,3 +284,20 @@ func init() {
 		c11PropRaw(t, c)
 	}
 }
+
+// native fuzz (thorough tier only): same oracles, coverage-guided bytes
+func FuzzVerifC11Str(f *testing.F) {
+	for _, p := range c11Pieces {
+		f.Add([]byte(p))
+		f.Add([]byte(strings.Repeat("a", 126) + p + "b"))
+		f.Add([]byte(strings.Repeat("a", 120) + " " + p + p + " "))
+	}
+	f.Fuzz(func(t *testing.T, b []byte) { c11PropStr(t, c11Str{B: b}) })
+}
+
+func FuzzVerifC11Raw(f *testing.F) {
+	for _, s := range []string{"0", "-1", "4294967295", "4294967296", "-2147483648", "-2147483649", "18446744073709551615", "18446744073709551616", "-9223372036854775808", "-9223372036854775809", "+1", "1_0", "0x10", " 1", "", "-", "00000000000000000000001"} {
+		f.Add(s)
+	}
+	f.Fuzz(func(t *testing.T, s string) { c11PropRaw(t, c11Raw{S: s}) })
+}
